@@ -17,8 +17,23 @@ let lkinds_of kind payload =
 
 let res_str = function Ok s -> hex_of_str s | Panic -> "PANIC"
 
+let show_etok = function
+  | TId s -> "I" ^ hex_of_str s
+  | TStr s -> "S" ^ hex_of_str s
+  | TBytes bs -> "Y" ^ hex_of_bytes bs
+  | TWord s -> "W" ^ hex_of_str s
+  | TNum s -> "N" ^ hex_of_str s
+  | TParam n -> "P" ^ string_of_int (int_of_n n)
+  | TOp s -> "O" ^ hex_of_str s
+  | TPunct c -> "C" ^ hex_of_str [c]
+
 let dispatch (t : string list) : string =
   match t with
+  | ["etok"; b; h] ->
+      (match eng_tokens (backend_of b) (str_of_hex h) with
+       | None -> "LEXFAIL"
+       | Some ts -> String.concat " " (List.map show_etok ts) ^ " .")
+  | ["idprep"; b; h] -> hex_of_str (iden_prepare (quote_char (backend_of b)) (str_of_hex h))
   | ["lit"; b; pos; kind; payload] ->
       res_str (lit_render (backend_of b) (lpos_of pos) (lkinds_of kind payload))
   | ["declit"; b; pos; kind; stmt] ->
